@@ -4,3 +4,15 @@ claimed["C03"] = dict(
     text="Every state reachable within the depth bound from six seed repositories by any command of the alphabet (including update-ref with blob/tree/unknown/malformed ids, branch names with '/', '..', path escapes, reset to every reflog position) satisfies the connectivity invariant, judged by an independent decoder; every pre-existing object still decodes to the same content after every command. Exhaustive within the bound; nothing sampled.",
     note="Trusted: engine/gitfmt.go (independent zlib/SHA-1/tree/commit/index readers); the seam only fixes the clock. Bound: depth and alphabet reported in the evidence.",
 )
+claimed["C04"] = dict(
+    category="model_checking",
+    technique="explicit-state BFS over (index, worktree) states x every add/rm argument list of length 1-2 (files, directories, deleted-but-tracked, unknown, repeated), each transition compared with a map reference model",
+    text="For every state reachable within the depth bound and every argument list of the alphabet, the post-state's index (decoded independently) and worktree bytes equal what the reference model allows: named files staged with the blob id of their bytes and the blob stored, tracked-but-missing paths unstaged, rm removing exactly tracked paths beneath the argument, untracked files untouched, unknown arguments refused atomically, re-adding unchanged files a no-op.",
+    note="Trusted: gitfmt decoders and engine/model.go (relation; exit status left open where the statement is silent, e.g. overlapping arguments). Invocation from the repository root only.",
+)
+claimed["C02"] = dict(
+    category="model_checking",
+    technique="exhaustive name-set sweep (all realizable subsets up to size k of an 18-path universe ordered around '/') plus explicit-state BFS over edit/add/rm/restore/reset/branch/switch histories; every applied commit judged against independently decoded objects",
+    text="For every enumerated name set and every history within the depth bound, each successful commit advanced exactly the current branch to a commit whose flattened snapshot equals the staged entries at that moment, whose only parent is the previous tip, with the configured identity and the given message; HEAD, other branches, the staging area and the working tree were unchanged; a commit of a staged difference always succeeded.",
+    note="Trusted: gitfmt. Fixed clock means two identical commits coincide; the oracle accepts a pre-existing identical commit object. Tree ids are not predicted (Goit spells the directory mode 040000); snapshots are compared after flattening.",
+)
